@@ -1,64 +1,118 @@
 ---------------------------- MODULE TraceIndexer ----------------------------
 (***************************************************************************)
 (* Trace validation (code -> spec) of ImageD11.indexing.indexer runs, C08. *)
-(* Each line of TRACE_FILE is one recorded run of score_all_pairs / find + *)
-(* scorethem on real g-vectors:                                            *)
-(*   id, NP, minpks, unum/uden (uniqueness threshold), maxgrains,          *)
+(* Each line of TRACE_FILE is one recorded run on real g-vectors, through  *)
+(* indexer.score_all_pairs (also with n / rmulmax / rings_to_use and       *)
+(* repeated with other minpks / hkl_tol), indexing.index or                *)
+(* indexing.do_index:                                                      *)
+(*   id, NP, unum/uden (uniqueness threshold), maxgrains,                  *)
+(*   mode   "closest" (cosine_tol > 0) or "all" (cosine_tol < 0)           *)
+(*   passes[k] = [minpks]  the minimum REQUESTED for pass k (from the      *)
+(*          harness's plan, not read back from the object)                 *)
 (*   ra[p]  ring of each peak (-1 none), ga0[p] initial grain assignment,  *)
 (*   ev[k]  events                                                         *)
+(*     [t |-> "pass", k]        pass k begins (index / do_index change      *)
+(*            minpks and hkl_tol between pair loops on the same indexer)    *)
+(*     [t |-> "sap", n, pairs, unordered]  a pair loop begins: pairs = the  *)
+(*            ring pairs it may and (n = -1) must try, computed by the      *)
+(*            harness from ra, its own ring multiplicities, rings_to_use    *)
+(*            and rmulmax; unordered: do_index tries one order of each pair *)
 (*     [t |-> "find", r1, r2, early, hits]   hits = <<i,j>> list produced   *)
-(*     [t |-> "pop", i, j, kind, npk, nind, nun, ind]                       *)
+(*     [t |-> "pop", i, j, kind, npk, sc, score, nind, nun, ind]            *)
 (*            kind in skip/low/reject/accept as observed: no score call /   *)
 (*            score call only / getind call without new grain / new grain;  *)
-(*            npk = first score after the pop; nind, nun = peaks indexed by *)
-(*            getind and how many of them were unassigned; ind = those peaks*)
+(*            npk = first score after the pop; sc = all scores taken for    *)
+(*            this hit (first + re-orientation candidates); score = the     *)
+(*            value appended to .scores on accept; nind, nun = peaks        *)
+(*            indexed by getind and how many of them were unassigned;       *)
+(*            ind = those peaks                                             *)
 (*     [t |-> "end", left]                   scorethem returned             *)
-(*   gaF[p] final grain assignment, nubis final number of grains           *)
+(*   gaF[p] final grain assignment, nubisF final number of grains,         *)
+(*   scoresF final .scores                                                 *)
 (* The actions are those of Indexer.tla with the abstract functions bound  *)
 (* to the logged values: the SPECIFICATION decides what each pop must be   *)
-(* (skip iff a peak is assigned or i = j; else low iff npk <= minpks; else  *)
-(* accept iff nun/nind > uniqueness), that hits are popped from the end,   *)
-(* that find only offers unassigned peaks of the two rings, that at most   *)
-(* maxgrains are accepted per scorethem call, and what ga becomes.         *)
+(* (skip iff a peak is assigned or i = j; else low iff npk <= the minimum   *)
+(* of the pass; else accept iff nun/nind > uniqueness), that hits are       *)
+(* popped from the end, that find only offers unassigned peaks of the two   *)
+(* rings (one partner per first peak in closest mode), that a pair loop     *)
+(* tries only permitted ring pairs, each once, all of them unless n cuts    *)
+(* it short and then not more than n + 1, that at most maxgrains are        *)
+(* accepted per scorethem call, that the score stored for a grain is the    *)
+(* best one taken, and what ga / scores become.                             *)
 (* One verdict per trace, naming the failing clause.                       *)
 (***************************************************************************)
 EXTENDS Integers, Sequences, FiniteSets, TLC, Json, IOUtils
 
 Trace == ndJsonDeserialize(IOEnv.TRACE_FILE)
 
-VARIABLES t, e, ga, nub, hits, ng, inscore, why
-vars == <<t, e, ga, nub, hits, ng, inscore, why>>
+VARIABLES t, e, ga, nub, hits, ng, inscore, why, pass, scores, call, tried
+vars == <<t, e, ga, nub, hits, ng, inscore, why, pass, scores, call, tried>>
 
+NoCall == [on |-> FALSE, n |-> -1, pairs |-> {}, unordered |-> FALSE, nfind |-> 0, stopped |-> FALSE, reached |-> FALSE]
 Rec == Trace[t]
 Start(r) == /\ ga' = r.ga0 /\ nub' = r.nubis0 /\ hits' = <<>> /\ ng' = 0 /\ inscore' = FALSE
+            /\ pass' = 1 /\ scores' = r.scores0 /\ call' = NoCall /\ tried' = {}
 
 Init == /\ t = 1 /\ e = 0 /\ why = "ok"
         /\ ga = IF Len(Trace) > 0 THEN Trace[1].ga0 ELSE <<>>
         /\ nub = IF Len(Trace) > 0 THEN Trace[1].nubis0 ELSE 0
-        /\ hits = <<>> /\ ng = 0 /\ inscore = FALSE
+        /\ scores = IF Len(Trace) > 0 THEN Trace[1].scores0 ELSE <<>>
+        /\ hits = <<>> /\ ng = 0 /\ inscore = FALSE /\ pass = 1 /\ call = NoCall /\ tried = {}
 
 Ev == Rec.ev[e + 1]
 Consume == e' = e + 1 /\ t' = t
+MinP(r) == r.passes[pass].minpks
+SeqMax(s) == CHOOSE x \in {s[k] : k \in 1..Len(s)} : \A k \in 1..Len(s) : s[k] <= x
+
+\* ---- the pair loop ----------------------------------------------------------------------------
+\* a loop that has ended: every permitted pair was tried, unless n cut it short (then at least n were tried)
+Covered(pr) == pr \in tried \/ (call.unordered /\ <<pr[2], pr[1]>> \in tried)
+CallDoneWhy == IF ~call.on THEN "ok"
+               ELSE IF (\A pr \in call.pairs : Covered(pr)) THEN "ok"
+               ELSE IF call.n < 0 THEN "the pair loop ended without trying every permitted ring pair"
+               ELSE IF ~call.reached THEN "the pair loop ended before n ring pairs had been tried"
+               ELSE "ok"
+PassEv == /\ t <= Len(Trace) /\ e < Len(Rec.ev) /\ why = "ok" /\ Ev.t = "pass"
+          /\ why' = IF Ev.k \notin 1..Len(Rec.passes) THEN "pass number outside the plan" ELSE CallDoneWhy
+          /\ pass' = Ev.k /\ call' = NoCall /\ tried' = {}
+          /\ UNCHANGED <<ga, nub, hits, ng, inscore, scores>> /\ Consume
+SapEv == /\ t <= Len(Trace) /\ e < Len(Rec.ev) /\ why = "ok" /\ Ev.t = "sap"
+         /\ why' = CallDoneWhy
+         /\ call' = [on |-> TRUE, n |-> Ev.n, pairs |-> {<<Ev.pairs[k][1], Ev.pairs[k][2]>> : k \in 1..Len(Ev.pairs)},
+                     unordered |-> Ev.unordered, nfind |-> 0, stopped |-> FALSE, reached |-> (Ev.n = 0)]
+         /\ tried' = {}
+         /\ UNCHANGED <<ga, nub, hits, ng, inscore, scores, pass>> /\ Consume
 
 \* ---- find ---------------------------------------------------------------------------------
+PairWhy(v) ==
+  IF ~call.on THEN "ok"
+  ELSE IF call.stopped THEN "the pair loop went on after more than n ring pairs"
+  ELSE IF <<v.r1, v.r2>> \notin call.pairs /\ ~(call.unordered /\ <<v.r2, v.r1>> \in call.pairs)
+       THEN "a ring pair outside rings_to_use / rmulmax / the rings holding peaks was tried"
+  ELSE IF Covered(<<v.r1, v.r2>>) THEN "a ring pair was tried twice in one pair loop" ELSE "ok"
 FindWhy(r, v) ==
-  IF v.early
+  IF PairWhy(v) # "ok" THEN PairWhy(v)
+  ELSE IF v.early
   THEN IF \E p \in 1..r.NP : r.ra[p] = v.r1 /\ ga[p] = -1
           /\ \E q \in 1..r.NP : r.ra[q] = v.r2 /\ ga[q] = -1
        THEN "find returned early although both rings have unassigned peaks" ELSE "ok"
   ELSE IF \E k \in 1..Len(v.hits) : r.ra[v.hits[k][1]] # v.r1 \/ r.ra[v.hits[k][2]] # v.r2
        THEN "find offers a peak that is not on the requested ring"
        ELSE IF \E k \in 1..Len(v.hits) : ga[v.hits[k][1]] # -1 \/ ga[v.hits[k][2]] # -1
-       THEN "find offers a peak that is already assigned to a grain" ELSE "ok"
+       THEN "find offers a peak that is already assigned to a grain"
+       ELSE IF r.mode = "closest" /\ \E k, m \in 1..Len(v.hits) : k # m /\ v.hits[k][1] = v.hits[m][1]
+       THEN "closest-angle find offers two partners for one peak" ELSE "ok"
 Find == /\ t <= Len(Trace) /\ e < Len(Rec.ev) /\ why = "ok" /\ Ev.t = "find"
         /\ why' = FindWhy(Rec, Ev)
-        /\ hits' = IF Ev.early THEN hits ELSE Ev.hits
-        /\ UNCHANGED <<ga, nub, ng, inscore>> /\ Consume
+        /\ hits' = IF Ev.early THEN hits ELSE Ev.hits   \* an early return leaves self.hits as it was
+        /\ tried' = tried \cup {<<Ev.r1, Ev.r2>>}
+        /\ call' = IF call.on THEN [call EXCEPT !.nfind = @ + 1, !.reached = (call.n >= 0 /\ call.nfind + 1 >= call.n)] ELSE call
+        /\ UNCHANGED <<ga, nub, ng, inscore, pass, scores>> /\ Consume
 
 \* ---- pop ----------------------------------------------------------------------------------
 MustSkip(v) == ga[v.i] > -1 \/ ga[v.j] > -1 \/ v.i = v.j
 Expected(r, v) == IF MustSkip(v) THEN "skip"
-                  ELSE IF v.npk <= r.minpks THEN "low"
+                  ELSE IF v.npk <= MinP(r) THEN "low"
                   ELSE IF v.nind > 0 /\ v.nun * r.uden > r.unum * v.nind THEN "accept" ELSE "reject"
 PopWhy(r, v) ==
   IF Len(hits) = 0 THEN "a hit was popped from an empty hit list"
@@ -68,24 +122,32 @@ PopWhy(r, v) ==
   ELSE IF v.kind # "skip" /\ MustSkip(v) THEN "a hit with an assigned peak (or i = j) was not skipped"
   ELSE IF v.kind # Expected(r, v) THEN "decision " \o v.kind \o " differs from the specification's " \o Expected(r, v)
   ELSE IF v.kind = "accept" /\ v.nun # Cardinality({p \in 1..r.NP : p \in {v.ind[k] : k \in 1..Len(v.ind)} /\ ga[p] = -1})
-       THEN "uniqueness was not computed from the current grain assignments" ELSE "ok"
+       THEN "uniqueness was not computed from the current grain assignments"
+  ELSE IF v.kind = "accept" /\ (Len(v.sc) = 0 \/ v.sc[1] # v.npk \/ v.score # SeqMax(v.sc))
+       THEN "the score stored for an accepted grain is not the best score taken for its hit"
+  ELSE IF v.kind = "accept" /\ v.score <= MinP(r) THEN "a grain was stored with a score that is not above the minimum of the pass"
+  ELSE "ok"
 Pop == /\ t <= Len(Trace) /\ e < Len(Rec.ev) /\ why = "ok" /\ Ev.t = "pop"
        /\ why' = PopWhy(Rec, Ev)
        /\ hits' = IF Len(hits) > 0 THEN SubSeq(hits, 1, Len(hits) - 1) ELSE hits
        /\ IF Ev.kind = "accept"
           THEN /\ ga' = [p \in 1..Rec.NP |-> IF p \in {Ev.ind[k] : k \in 1..Len(Ev.ind)} THEN nub + 1 ELSE ga[p]]
-               /\ nub' = nub + 1 /\ ng' = ng + 1
-          ELSE UNCHANGED <<ga, nub, ng>>
-       /\ inscore' = TRUE /\ Consume
+               /\ nub' = nub + 1 /\ ng' = ng + 1 /\ scores' = Append(scores, Ev.score)
+          ELSE UNCHANGED <<ga, nub, ng, scores>>
+       /\ inscore' = TRUE /\ UNCHANGED <<pass, call, tried>> /\ Consume
 
 \* ---- end of scorethem -------------------------------------------------------------------------
 End == /\ t <= Len(Trace) /\ e < Len(Rec.ev) /\ why = "ok" /\ Ev.t = "end"
        /\ why' = IF Len(hits) > 0 /\ ng < Rec.maxgrains THEN "scorethem returned with hits left and fewer than max_grains grains"
                  ELSE IF Ev.left # Len(hits) THEN "number of hits left differs from the specification's" ELSE "ok"
-       /\ ng' = 0 /\ inscore' = FALSE /\ UNCHANGED <<ga, nub, hits>> /\ Consume
+       /\ call' = IF call.on /\ call.n >= 0 /\ call.nfind > call.n THEN [call EXCEPT !.stopped = TRUE] ELSE call
+       /\ ng' = 0 /\ inscore' = FALSE /\ UNCHANGED <<ga, nub, hits, pass, scores, tried>> /\ Consume
 
-FinalWhy(r) == IF \E p \in 1..r.NP : ga[p] # r.gaF[p] THEN "final grain assignment differs from the specification's"
+FinalWhy(r) == IF CallDoneWhy # "ok" THEN CallDoneWhy
+               ELSE IF \E p \in 1..r.NP : ga[p] # r.gaF[p] THEN "final grain assignment differs from the specification's"
                ELSE IF nub # r.nubisF THEN "final number of grains differs from the specification's"
+               ELSE IF scores # r.scoresF THEN "final scores differ from the specification's"
+               ELSE IF Len(scores) # nub THEN "scores and ubis have different lengths"
                ELSE IF \E p \in 1..r.NP : ~(ga[p] = -1 \/ ga[p] \in 1..nub) THEN "a peak is assigned to a grain that was never accepted"
                ELSE "ok"
 Finish == /\ t <= Len(Trace) /\ (e = Len(Rec.ev) \/ why # "ok")
@@ -93,8 +155,9 @@ Finish == /\ t <= Len(Trace) /\ (e = Len(Rec.ev) \/ why # "ok")
              IN PrintT("@@" \o ToJson([id |-> Rec.id, ok |-> (w = "ok"), why |-> w, consumed |-> e]))
           /\ t' = t + 1 /\ e' = 0 /\ why' = "ok"
           /\ IF t + 1 <= Len(Trace) THEN Start(Trace[t + 1])
-             ELSE ga' = <<>> /\ nub' = 0 /\ hits' = <<>> /\ ng' = 0 /\ inscore' = FALSE
+             ELSE /\ ga' = <<>> /\ nub' = 0 /\ hits' = <<>> /\ ng' = 0 /\ inscore' = FALSE
+                  /\ pass' = 1 /\ scores' = <<>> /\ call' = NoCall /\ tried' = {}
 
-Next == Find \/ Pop \/ End \/ Finish
+Next == Find \/ Pop \/ End \/ PassEv \/ SapEv \/ Finish
 Spec == Init /\ [][Next]_vars
 =============================================================================
